@@ -441,7 +441,7 @@ def run_e3(prop, replay_bins):
         return [{"name": "e3_queries", "family": "e3", "status": "INCONCLUSIVE", "reason": "mirsmt failed: " + p.stderr[-500:], "wall_s": dt}], dt
     res = []
     for q in data["results"]:
-        r = {"name": "e3_" + q["name"], "family": "e3_" + q["name"], "checks": q.get("queries", 1), "solver_time_s": q.get("solver_time_s"),
+        r = {"name": "e3_" + q["name"], "family": "e3_" + q["name"], "checks": q.get("queries", 1), "cases": q.get("cases", 1), "solver_time_s": q.get("solver_time_s"),
              "wall_s": q.get("solver_time_s"), "detail": q["detail"], "functions": q.get("functions"), "covers": [{"desc": "query reached a verdict", "status": "SATISFIED"}]}
         if q["verdict"] == "holds":
             r["status"] = "PASS"
@@ -499,7 +499,7 @@ TIERS = {
 }
 
 
-def decide(prop, tier, harnesses, meta, seed=0, jobs=None, only=None):
+def decide(prop, tier, harnesses, meta, seed=0, jobs=None, only=None, e3_only=False):
     t_start = time.time()
     os.makedirs(EVIDENCE, exist_ok=True)
     os.makedirs(REPLAYS, exist_ok=True)
@@ -513,6 +513,8 @@ def decide(prop, tier, harnesses, meta, seed=0, jobs=None, only=None):
         hs = [h for h in harnesses if prop in h["props"]]
     if only:
         hs = [h for h in hs if re.search(only, h["name"])]
+    if e3_only:
+        hs = []
     # the seed only permutes scheduling order: verdicts are solver verdicts
     import random
     rnd = random.Random(seed)
@@ -543,7 +545,7 @@ def decide(prop, tier, harnesses, meta, seed=0, jobs=None, only=None):
             results.append(r)
             log("  %-60s %-12s %6.1fs %s" % (r["name"], r["status"], r.get("wall_s", 0), r.get("reason", "")))
 
-    if prop in e3_props() and not only:
+    if prop in e3_props() and (not only or e3_only):
         log("[%s] E3: regenerating the MIR dump and running the glue queries" % prop)
         e3res, _ = run_e3(prop, replay_bins)
         for r in e3res:
@@ -621,11 +623,12 @@ def write_evidence(prop, tier, seed, meta, results, wall, nviol, known_hits=(), 
         "level": "model_checking",
         "coverage": {
             "evaluations": sum(r.get("checks") or 0 for r in results),
-            "distinct_nontrivial": len(nontrivial),
+            "distinct_nontrivial": len([r for r in nontrivial if not r["name"].startswith("e3_")]) + sum(r.get("cases", 0) for r in nontrivial if r["name"].startswith("e3_")),
             "rule": "one evaluation = one CBMC property (assertion/overflow/bounds/unwinding check) decided by the SAT solver over all "
                     "inputs inside the harness bounds; a harness instance is non-trivial when all its kani::cover! witnesses "
                     "(assertion reached with the interesting precondition true) were SATISFIED; instances are distinct by name "
-                    "(concrete key lengths/shapes per instance, everything else symbolic)",
+                    "(concrete key lengths/shapes per instance, everything else symbolic); for an E3 query the distinct cases are the feasible "
+                    "paths / tracked sites / per-table obligations of the encoded body, each decided by z3 and cvc5",
             "samples": samples or [{"note": "no harness ran"}],
             "harnesses_total": len(results),
             "harnesses_passed": len(passed),
